@@ -77,9 +77,10 @@ class OwnPlugin(Plugin):
             base = self.eval(e.value, d)
             if not self._is_value(e):
                 return FS(["N"])
-            # a sub-object (slot) of base: owned by base
-            if base <= {"F"}:
-                return FS(["F"])
+            # a sub-object (slot) of base.  Copies are shallow (_copy()
+            # hands the slot values on by reference), so what sits in a slot
+            # of even a fresh object is shared with the object it was copied
+            # from or with whoever passed it in
             return FS(["S"])
         if isinstance(e, ast.Call):
             return self._call(e, d)
@@ -243,6 +244,20 @@ class OwnPlugin(Plugin):
                                 self.f.cls is not None and
                                 self.f.cls.name in self.vnames):
             self.writes.append((node, base_expr, base_atoms, slot))
+        elif isinstance(base_expr, ast.Attribute):
+            # `x._zone._hours = ...`: a store into an object that sits in a
+            # slot of a value object.  Copies are shallow, so that object is
+            # shared with the original (and with whoever handed it in),
+            # whatever the resolver knows about its type.
+            root = base_expr
+            while isinstance(root, ast.Attribute):
+                root = root.value
+            if self._types(root) & self.vnames or (
+                    isinstance(root, ast.Name) and
+                    root.id == self.f.self_name and
+                    self.f.cls is not None and
+                    self.f.cls.name in self.vnames):
+                self.writes.append((node, base_expr, FS(["S"]), slot))
 
     def assign(self, t, v, d, st):
         if isinstance(t, ast.Name):
